@@ -141,4 +141,23 @@ theorem code_chunk_pieces_le (s : Str) (n : Int) (hn : 0 < n) :
   ⟨Oidc.Session.splitN n.toNat s, splitIntoChunks_refines s n hn _ (Nat.lt_succ_self _),
     fun c hc => (Oidc.Session.splitN_piece_le n.toNat s c hc).1⟩
 
+
+/-! ### the cookie attributes, translated from session.go on every run -/
+
+/-- `SessionManager.getSessionOptions` as it stands in /repo: every cookie it configures is HttpOnly, SameSite=Lax, Path=/, lives
+    86 400 s (the absolute session lifetime), has no Domain attribute, and is Secure exactly when the request arrived over TLS or
+    HTTPS is forced -/
+theorem code_getSessionOptions (sm : Go.SessMgr) (isSecure : Bool) :
+    let o := Oidc.Generated.Code.SessionManager_getSessionOptions sm isSecure
+    o.HttpOnly = true ∧ o.SameSite = Go.SameSite.lax ∧ o.Path = ['/'] ∧ o.MaxAge = 86400 ∧ o.Domain = [] ∧
+    o.Secure = (isSecure || sm.forceHTTPS) := by
+  refine ⟨rfl, rfl, rfl, ?_, rfl, rfl⟩
+  show Go.int64 (Go.durSeconds Oidc.Generated.Code.absoluteSessionTimeout) = 86400
+  decide
+
+/-- forced HTTPS: Secure whatever the request looked like -/
+theorem code_getSessionOptions_forced (sm : Go.SessMgr) (isSecure : Bool) (h : sm.forceHTTPS = true) :
+    (Oidc.Generated.Code.SessionManager_getSessionOptions sm isSecure).Secure = true := by
+  simp [Oidc.Generated.Code.SessionManager_getSessionOptions, h]
+
 end Oidc.Props.C18
